@@ -802,12 +802,14 @@ def makeringlatticeCIJ(n, k, seed=None):
 
     # fill in
     while kk < k:
-        count += 1
         dCIJ = np.triu(CIJ1, seq[count]) - np.triu(CIJ1, seq[count] + 1)
         dCIJ2 = np.triu(CIJ1, seq2[count]) - np.triu(CIJ1, seq2[count] + 1)
         dCIJ = dCIJ + dCIJ.T + dCIJ2 + dCIJ2.T
+        # the middle band of an even ring coincides with its wrapped copy
+        dCIJ = (dCIJ > 0).astype(float)
         CIJ += dCIJ
         kk = int(np.sum(CIJ))
+        count += 1
 
     # remove excess connections
     overby = kk - k
